@@ -6,6 +6,8 @@ CONSTANTS
   EditDids = {}
   EditThresholds = {}
   Payloads = {"absent", "bad", "project", "custom", "nonnfc"}
+  ListIds = {}
+  ListThresholds = {}
   JsonDocs <- MCJsonDocs
 INIT Init
 NEXT Next
